@@ -232,4 +232,37 @@ example : (CacheG.takeL C12.step (Cache.new 2 300) 1 .panicValue 3).1.data = []
     ∧ CacheG.takeRet (CacheG.takeL C12.step (Cache.new 2 300) 1 (.value 0) 3).1 1 .goexit = .val 0
     ∧ CacheG.takeRet (Cache.new 2 300) 1 .typedNilError = .err := by decide
 
+/-! ## Take when the default expiry is not positive (the branch `CacheG.takeNoTimer` of the driver) -/
+
+/-- **`Take` in a cache whose jittered default expiry is ≤ 0** (`NewCache(0)`, the branch the driver takes when the
+observed expiry is not positive): the loader still runs iff the key is absent; a hit is a `Get`; a failed load leaves
+the cache as it was; a successful one stores the value without a timer (`set_nonpositive_expiry` then gives the
+invariants, the size bound and `Get k = v`). -/
+theorem take_nonpositive_expiry_every_outcome {T : Type} (ts : TStep T) (c : CacheG T) (k v : Nat) (fails : Bool) :
+    ((CacheG.takeNoTimer ts c k v fails).2.loaded = true ↔ alookup c.data k = none)
+    ∧ (∀ x, alookup c.data k = some x →
+        (CacheG.takeNoTimer ts c k v fails).2.result = some x ∧ (CacheG.takeNoTimer ts c k v fails).1 = (CacheG.get ts c k).1)
+    ∧ (alookup c.data k = none → fails = true →
+        (CacheG.takeNoTimer ts c k v fails).1 = c ∧ (CacheG.takeNoTimer ts c k v fails).2.result = none)
+    ∧ (alookup c.data k = none → fails = false →
+        (CacheG.takeNoTimer ts c k v fails).1 = (CacheG.setNoTimer ts c k v).1
+        ∧ (CacheG.takeNoTimer ts c k v fails).2.result = some v
+        ∧ (CacheG.takeNoTimer ts c k v fails).2.evicted = (CacheG.setNoTimer ts c k v).2.evicted) := by
+  unfold CacheG.takeNoTimer CacheG.get
+  cases hk : alookup c.data k with
+  | some x => simp
+  | none => cases fails <;> simp
+
+/-- the loaded entry of such a cache keeps every invariant and is returned by the next `Get` -/
+theorem take_nonpositive_expiry_stores {T : Type} (ts : TStep T) (c : CacheG T) (h : c.Inv) (k v : Nat)
+    (hm : alookup c.data k = none) :
+    (CacheG.takeNoTimer ts c k v false).1.Inv
+    ∧ (CacheG.get ts (CacheG.takeNoTimer ts c k v false).1 k).2.result = some v := by
+  rw [((take_nonpositive_expiry_every_outcome ts c k v false).2.2.2 hm rfl).1]
+  exact ⟨(set_nonpositive_expiry ts c h k v).1, (set_nonpositive_expiry ts c h k v).2.2.1⟩
+
+example : (CacheG.takeNoTimer C12.step (Cache.new 1 300) 1 10 false).1.data = [(1, 10)]
+    ∧ (CacheG.takeNoTimer C12.step (Cache.new 1 300) 1 10 false).1.timers = (Cache.new 1 300).timers
+    ∧ (CacheG.takeNoTimer C12.step (Cache.new 1 300) 1 10 true).1.data = [] := by decide
+
 end GoZero.C16
